@@ -378,6 +378,19 @@ func TypedValueToYANGType(tv *sdcpb.TypedValue, schemaObject *sdcpb.SchemaElem) 
 	if tv == nil {
 		return nil, errors.New("update without a value")
 	}
+	switch leafTypeOf(schemaObject) {
+	case "empty":
+		// the existence is the value, devices report it as true, {} or [null]
+		return &sdcpb.TypedValue{Timestamp: tv.GetTimestamp(), Value: &sdcpb.TypedValue_EmptyVal{}}, nil
+	case "decimal64":
+		// gNMI devices report decimal64 as double
+		switch v := tv.Value.(type) {
+		case *sdcpb.TypedValue_DoubleVal:
+			return ConvertToTypedValue(schemaObject, strconv.FormatFloat(v.DoubleVal, 'f', -1, 64), tv.GetTimestamp())
+		case *sdcpb.TypedValue_FloatVal:
+			return ConvertToTypedValue(schemaObject, strconv.FormatFloat(float64(v.FloatVal), 'f', -1, 32), tv.GetTimestamp())
+		}
+	}
 	switch tv.Value.(type) {
 	case *sdcpb.TypedValue_AsciiVal:
 		return ConvertToTypedValue(schemaObject, tv.GetAsciiVal(), tv.GetTimestamp())
@@ -413,6 +426,17 @@ func TypedValueToYANGType(tv *sdcpb.TypedValue, schemaObject *sdcpb.SchemaElem) 
 		return tv, nil
 	}
 	return tv, nil
+}
+
+// leafTypeOf returns the YANG type of a leaf or leaf-list schema object ("" for containers)
+func leafTypeOf(schemaObject *sdcpb.SchemaElem) string {
+	switch {
+	case schemaObject.GetField() != nil:
+		return schemaObject.GetField().GetType().GetType()
+	case schemaObject.GetLeaflist() != nil:
+		return schemaObject.GetLeaflist().GetType().GetType()
+	}
+	return ""
 }
 
 func ConvertToTypedValue(schemaObject *sdcpb.SchemaElem, v string, ts uint64) (*sdcpb.TypedValue, error) {
